@@ -174,6 +174,7 @@ func (r *Runner) Run(h *History) ([]Line, bool, error) {
 	suffix := fmt.Sprintf("_%d_%d", os.Getpid()%1000, h.ID)
 	var pmu sync.Mutex
 	pids := map[int]gen.PID{}
+	var depPid gen.PID // the member of the dependency
 	firstStart := true
 	mk := func(name string, n int, failAt int) *app {
 		a := &app{w: w}
@@ -193,6 +194,10 @@ func (r *Runner) Run(h *History) ([]Line, bool, error) {
 					if fail {
 						return errors.New("R:initfail")
 					}
+				} else {
+					pmu.Lock()
+					depPid = s.PID()
+					pmu.Unlock()
 				}
 				return nil
 			}
@@ -375,6 +380,42 @@ func (r *Runner) Run(h *History) ([]Line, bool, error) {
 			if !ln.Held {
 				// nobody kept the stop in progress: the unload simply follows it
 				ln.Res2 = resName(r.Node.ApplicationUnload(appName))
+			}
+		case "depstopstart":
+			// the member of the dependency is busy in a handler, so the stop of the dependency stays in progress; the application
+			// itself is started in that window: a dependency that is on its way down is not a running dependency
+			if dep != nil {
+				if info, e := r.Node.ApplicationInfo(dep.spec.Name); e == nil && info.State == gen.ApplicationStateRunning {
+					pmu.Lock()
+					dp := depPid
+					pmu.Unlock()
+					entered, release := make(chan struct{}), make(chan struct{})
+					parked := false
+					if r.Node.Send(dp, gated.Cmd{Fn: func(*gated.Scripted) error { close(entered); <-release; return nil }}) == nil {
+						select {
+						case <-entered:
+							parked = true
+						case <-time.After(300 * time.Millisecond):
+						}
+					}
+					stopDone := make(chan error, 1)
+					go func() { stopDone <- r.Node.ApplicationStop(dep.spec.Name) }()
+					ln.Held = parked
+					if parked {
+						time.Sleep(3 * time.Millisecond)
+						e2, h2 := withTimeout(3*time.Second, func() error { return r.Node.ApplicationStart(appName, gen.ApplicationOptions{}) })
+						ln.Res2 = resName(e2)
+						if h2 {
+							ln.Res2 = "hung"
+						}
+					}
+					close(release)
+					select {
+					case <-stopDone:
+					case <-time.After(8 * time.Second):
+						hg = true
+					}
+				}
 			}
 		case "fault2":
 			cur := snapshot()
